@@ -1,7 +1,107 @@
 import IbModel.Util.Wire
-/-! Driver handlers for C10 (request kinds served for that property). -/
-namespace IB.D10
+import IbModel.Model.CompressionTable
+/-!
+Driver handlers for C10. Paths and byte strings travel as lower-case hex (`-` = empty).
 
-def handlers : List (String × (List String → String)) := []
+* `CODECS`                                → the generated table, `name:ext,ext:magichex;…`
+* `LOWER <path>`                          → hex of the ASCII shape of `lowerPath`
+* `DETECT <path> <content>`               → `R=<codec|plain> W=<codec|plain>`
+* `RT <writer> <reader> <path> <plain>`   → `W=<codec|plain|other> R=<SAME|FAIL>`
+* `RD <reader> <path> C <codec> <plain>`  → `DECODED|VERBATIM|FAIL`
+* `RD <reader> <path> P <raw>`            → `VERBATIM|FAIL`
+
+The handlers evaluate `detectExt`, `detectMagic`, `readerCodec`, `store`, `load` — the definitions the
+theorems of `Props/C10.lean` are about — on the generated table, with the `toy` codec family standing
+in for the real libraries.
+-/
+namespace IB.D10
+open IB.Wire IB.Compression
+
+def bytes? (s : String) : Option Bytes :=
+  if s == "-" then some [] else hexToBytes? s.toList
+
+def path? (s : String) : Option (List Char) := do
+  let bs ← bytes? s
+  let str ← String.fromUTF8? (ByteArray.mk (bs.map UInt8.ofNat).toArray)
+  pure str.toList
+
+def hexOut (bs : Bytes) : String := if bs.isEmpty then "-" else bytesToHex bs
+
+def writer? : String → Option Writer
+  | "raw" => some .raw | "jsonl_vec" => some .jsonlVec | "jsonl_par" => some .jsonlPar
+  | "csv_vec" => some .csvVec | "csv_par" => some .csvPar | "pc_jsonl" => some .pcJsonl
+  | "pc_jsonl_par" => some .pcJsonlPar | "pc_csv" => some .pcCsv | "pc_csv_par" => some .pcCsvPar
+  | "cloud_jsonl" => some .cloudJsonl | _ => none
+
+def reader? : String → Option Reader
+  | "raw" => some .raw | "jsonl_vec" => some .jsonlVec | "jsonl_helper" => some .jsonlHelper
+  | "jsonl_streaming" => some .jsonlStreaming | "csv_vec" => some .csvVec | "csv_helper" => some .csvHelper
+  | "csv_streaming" => some .csvStreaming | "cloud_jsonl" => some .cloudJsonl | _ => none
+
+def codecLabel : Option CodecEntry → String
+  | some c => c.name
+  | none => "plain"
+
+def handleCodecs : List String → String
+  | [] => ";".intercalate (codecTable.map fun c =>
+      c.name ++ ":" ++ ",".intercalate c.exts ++ ":" ++ (match c.magic with | some m => hexOut m | none => "none"))
+  | _ => "BAD-OP"
+
+/-- ASCII characters kept, every maximal run of non-ASCII characters → one `?` -/
+def asciiShape : List Char → Bool → List Char
+  | [], _ => []
+  | c :: cs, inRun =>
+    if c.toNat < 128 then c :: asciiShape cs false
+    else if inRun then asciiShape cs true else '?' :: asciiShape cs true
+
+def handleLower : List String → String
+  | [p] => match path? p with
+    | some path => hexOut ((asciiShape (lowerPath path) false).map Char.toNat)
+    | none => "BAD-OP"
+  | _ => "BAD-OP"
+
+def handleDetect : List String → String
+  | [p, c] => match path? p, bytes? c with
+    | some path, some content =>
+      "R=" ++ codecLabel (readerCodec codecTable path content) ++ " W=" ++ codecLabel (detectExt codecTable path)
+    | _, _ => "BAD-OP"
+  | _ => "BAD-OP"
+
+/-- which codec of the specification turned `plain` into `stored` (as the harness classifies real files) -/
+def classifyStored (stored plain : Bytes) : String :=
+  if stored == plain then "plain"
+  else match specSignatures.find? (fun r => r.2.isPrefixOf stored && toy.decompress r.1 stored == some plain) with
+    | some r => r.1
+    | none => "other"
+
+def handleRt : List String → String
+  | [w, r, p, x] => match writer? w, reader? r, path? p, bytes? x with
+    | some w, some r, some path, some plain =>
+      let stored := store toy codecTable w path plain
+      let back := load toy codecTable r path stored
+      "W=" ++ classifyStored stored plain ++ " R=" ++ (if back == some plain then "SAME" else "FAIL")
+    | _, _, _, _ => "BAD-OP"
+  | _ => "BAD-OP"
+
+def handleRd : List String → String
+  | [r, p, "C", c, x] => match reader? r, path? p, bytes? x with
+    | some r, some path, some plain =>
+      if (signatureOf c).isNone then "BAD-OP" else
+      let file := toy.compress c plain
+      match load toy codecTable r path file with
+      | some y =>
+        if y == plain then "DECODED"
+        else if y == file && r == .raw then "VERBATIM"   -- record readers cannot parse a compressed stream
+        else "FAIL"
+      | none => "FAIL"
+    | _, _, _ => "BAD-OP"
+  | [r, p, "P", x] => match reader? r, path? p, bytes? x with
+    | some r, some path, some raw =>
+      if load toy codecTable r path raw == some raw then "VERBATIM" else "FAIL"
+    | _, _, _ => "BAD-OP"
+  | _ => "BAD-OP"
+
+def handlers : List (String × (List String → String)) :=
+  [("CODECS", handleCodecs), ("LOWER", handleLower), ("DETECT", handleDetect), ("RT", handleRt), ("RD", handleRd)]
 
 end IB.D10
